@@ -15,7 +15,8 @@
                         FIFO order (this half of "exactly once" holds for the code as it is)
   Refuted for the code as it is:
     C41_once_full       "every queued frame ends Enriched exactly once, at quiescence"
-    C41_once_counterexample        (queue holds WAL sequence numbers: put; commit; get; process; complete)
+    C41_once_counterexample        (for whichever queue-id shape the source has today)
+    C41_once_counterexample_walseq (queue holds WAL sequence numbers: put; commit; get; process; complete)
     C41_once_counterexample_early  (even with frame ids in the queue: put; get; process; complete; commit)
   Proved under the hypotheses that remove both mechanisms:
     C41_once_partial    queue ids = frame ids AND the worker never takes a task while a put is
@@ -418,34 +419,44 @@ def witnessSeq : List Action := [.put true true false, .commit, .w, .w, .w, .w]
     `put; [stop check] get; process; complete; commit` -/
 def witnessEarly : List Action := [.put true true false, .w, .w, .w, .w, .commit]
 
-/-- **C41_once_counterexample** — the full statement is FALSE for the code as it is (the queue holds
-    WAL sequence numbers): after `put; commit; get; process; complete` the system is quiescent, the
-    task was processed ("Frame not found") and removed, and frame 0 is Searchable forever. -/
-theorem C41_once_counterexample : ¬ C41_once_full codePolicy := by
+/-- the configuration of the code as found (queue holds WAL sequence numbers), default interval -/
+def walCfg : Cfg := { interval := Mv.Gen.C41.DEFAULT_CHECKPOINT_INTERVAL, pol := .walSeq }
+
+/-- the queue holds WAL sequence numbers: after `put; commit; get; process; complete` the system is
+    quiescent, the task was processed ("Frame not found") and removed, frame 0 is Searchable forever. -/
+theorem C41_once_counterexample_walseq : ¬ C41_once_full .walSeq := by
   intro h
   have := h Mv.Gen.C41.DEFAULT_CHECKPOINT_INTERVAL witnessSeq
   revert this
   decide
 
 /-- what the witness run looks like -/
-example : let s := run defaultCfg init witnessSeq;
+example : let s := run walCfg init witnessSeq;
     s.queue = [] ∧ s.pending = [] ∧ s.pc = .head ∧ s.plog = [1] ∧ s.errors = 1 ∧
     s.frames.map (·.st) = [ESt.searchable] := by decide
 
 /-- **C41_once_counterexample_early** — the second mechanism alone also refutes it: even if the queue
-    held frame ids, `put; get; process; complete; commit` drops the task before the frame exists. -/
+    holds frame ids, `put; get; process; complete; commit` drops the task before the frame exists. -/
 theorem C41_once_counterexample_early : ¬ C41_once_full .frameId := by
   intro h
   have := h Mv.Gen.C41.DEFAULT_CHECKPOINT_INTERVAL witnessEarly
   revert this
   decide
 
-/-- and the same schedule on the code as it is -/
-example : let s := run defaultCfg init witnessEarly;
+/-- **C41_once_counterexample** — the full statement is FALSE for the code as it is, whichever of the
+    two known shapes of `put_internal` the translator found in the source (WAL sequence numbers in the
+    queue: witness `put; commit; get; process; complete`; frame ids: `put; get; process; complete; commit`). -/
+theorem C41_once_counterexample : ¬ C41_once_full codePolicy := by
+  cases h : codePolicy with
+  | walSeq => exact C41_once_counterexample_walseq
+  | frameId => exact C41_once_counterexample_early
+
+/-- and the early schedule under the WAL-sequence policy -/
+example : let s := run walCfg init witnessEarly;
     Quiescent s ∧ ¬ OnceAt s ∧ s.errors = 1 := by decide
 
 /-- with the WAL-sequence policy a task can also land on a frame that was never queued -/
-example : let s := run defaultCfg init [.put true true false, .put false false false, .commit, .w, .w, .w, .w];
+example : let s := run walCfg init [.put true true false, .put false false false, .commit, .w, .w, .w, .w];
     Quiescent s ∧ s.frames.map (fun f => (f.q, f.st, f.enr)) = [(true, ESt.searchable, 0), (false, ESt.enriched, 1)] := by
   decide
 
@@ -453,7 +464,7 @@ example : let s := run defaultCfg init [.put true true false, .put false false f
 example : let s := run { interval := 1, pol := .walSeq } init [.put true true false, .put false true false, .w, .w, .w, .w, .w, .stop, .w];
     s.frames.length = 2 ∧ s.nput = 2 ∧ s.pc = .stopped := by decide
 
-example : ∃ s : St, s.stop = true ∧ s.pc = .fetch ∧ s.queue ≠ [] ∧ (run defaultCfg s [.w, .w, .w, .w]).pc ≠ .stopped :=
-  ⟨run defaultCfg init [.put true true false, .w, .stop], by decide⟩
+example : ∃ s : St, s.stop = true ∧ s.pc = .fetch ∧ s.queue ≠ [] ∧ (run walCfg s [.w, .w, .w, .w]).pc ≠ .stopped :=
+  ⟨run walCfg init [.put true true false, .w, .stop], by decide⟩
 
 end Mv.Worker
